@@ -136,9 +136,9 @@ CHECKS["C05"] = {
     "streams": ["lang", "flat", "lang-exh"], "thorough_seeds": 4,
     "assumptions": WALK_ASSUME + [
         "the documented language of each rule is the table in lean/PGV/Spec/Lang.lean (DESIGN.md §6 C05); date separators are judged when they are plain punctuation (sepOK); empty options, several rule items in one text and residual rules (ip, json, re, file, dir) get no spec verdict",
-        "Go's regexp implements the usual leftmost semantics for the transcribed patterns; time.Parse + Format for numeric layouts is the standard library's (residual)",
+        "Go's regexp implements the usual leftmost semantics for the transcribed patterns; time.Parse + Format are transcribed by hand (lean/PGV/Model/TimeParse.lean) for layouts whose elements are 2006 01 02 15 04 05 — validated against the standard library through the implementation on every run — and stay a residual for every other layout; for in-range fields time.Date followed by Format renders those fields (calendar arithmetic of the standard library, assumed)",
     ],
-    "explanation": "T2_patterns (the regular expressions in the source are the transcribed ones, re-decided every run); C05_int / C05_phone / C05_float / C05_idcard / C05_email (model recogniser = independent recogniser for every byte string), C05_accepts_sound (the eleven residual-free rules: registered function writes a clause iff Spec.Lang.accepts says outside, every rule text of the documented shape, every string), C05_in_canonical_rendering / C05_unique_canonical_rendering / C05_ints_slice (numbers and slices judged through ToStr renderings), C05_timefmt_* (layout = components interleaved with the separators, all separators), C05_date_uses_layout, C05_unique_string, C05_prefix_suffix; stream lang: every rule on members, single-rune edits and random strings through Var/Struct/Map/Url, the verdict judged against Spec.Lang; lang-exh: EVERY string over {0 1 9 . , - x blank} up to length 4 (quick) / 6 (thorough) under the numeric, list and prefix rules",
+    "explanation": "T2_patterns (the regular expressions in the source are the transcribed ones, re-decided every run); C05_int / C05_phone / C05_float / C05_idcard / C05_email (model recogniser = independent recogniser for every byte string), C05_accepts_sound (the fifteen residual-free rules incl. year / year2month / date / datetime: registered function writes a clause iff Spec.Lang.accepts says outside, every rule text of the documented shape, every string), C05_year / C05_year2month / C05_date / C05_datetime (the transcription of time.Parse + Format back on the layouts GetTimeFmt builds = the documented date language, every string, every separator of sepOK), C05_in_canonical_rendering / C05_unique_canonical_rendering / C05_ints_slice (numbers and slices judged through ToStr renderings), C05_timefmt_* (layout = components interleaved with the separators, all separators), C05_date_uses_layout, C05_unique_string, C05_prefix_suffix; stream lang: every rule on members, single-rune edits and random strings through Var/Struct/Map/Url, the verdict judged against Spec.Lang; lang-exh: EVERY string over {0 1 9 . , - x blank} up to length 4 (quick) / 6 (thorough) under the numeric, list and prefix rules",
 }
 
 CONC_ASSUME = [
@@ -173,8 +173,8 @@ CHECKS["C11"] = {
 MANIFEST_TEXT = {
     "C05": {
         "technique": "regenerated regex facts (T2, decide) + Lean 4 theorems about recognisers, layout builder and content rules + differential correspondence judged by independent recognisers",
-        "text": "T2_patterns: every regexp.MustCompile constant of valid/init.go is re-extracted on each run and its regexp/syntax normal form must equal the one the model's recognisers transcribe (a widened class, a dropped anchor or an unescaped dot changes it). Theorems for every byte string / separator: C05_int, C05_phone, C05_float, C05_idcard, C05_email (model recogniser = independent Spec.Lang recogniser), C05_accepts_sound (for the eleven rules that need no residual — the five patterns, in, include, ints, unique, prefix, suffix — every rule text key[=arg][|message] and every string: the registered function writes a clause iff Spec.Lang.accepts, the predicate evaluated against the implementation on every probe, says outside), C05_timefmt_year/year2month/date/datetime (the layout is the components interleaved with the given separators), C05_date_uses_layout, C05_unique_string, C05_prefix_suffix. Tie: stream lang (60k cases quick): each of 20 rules on members of its language, 1-3 single-rune edits and random strings, custom / doubled / layout-significant separators, quoted options, through Var/Struct/Map/Url; the implementation's verdict is judged against the independent recognisers of Spec.Lang (phone, email, idcard, int, float, year, year2month, date, datetime, in, include, ints, unique, prefix, suffix), its text against the model.",
-        "note": "Trusted: Lean kernel; Spec.Lang as the reading of the documentation; regexp and time semantics of the stdlib; email recogniser-vs-spec equivalence is checked by the stream, not yet a theorem. Genuine defect found by this check and repaired (F-C05-f).",
+        "text": "T2_patterns: every regexp.MustCompile constant of valid/init.go is re-extracted on each run and its regexp/syntax normal form must equal the one the model's recognisers transcribe (a widened class, a dropped anchor or an unescaped dot changes it). Theorems for every byte string / separator: C05_int, C05_phone, C05_float, C05_idcard, C05_email (model recogniser = independent Spec.Lang recogniser), C05_accepts_sound (for the fifteen rules that need no residual — the five patterns, in, include, ints, unique, prefix, suffix, year, year2month, date, datetime — every rule text key[=arg][|message] and every string: the registered function writes a clause iff Spec.Lang.accepts, the predicate evaluated against the implementation on every probe, says outside), C05_year / C05_year2month / C05_date / C05_datetime (parseTimeStrict — a hand transcription of time.Parse's layout scanner, literal skipping with runs of blanks, the six numeric elements, day-of-month validation, and Format's appendInt — equals the independent reading of the date language for every string and every separator made of - / . : blank + _ , #; other layouts stay a residual), C05_timefmt_year/year2month/date/datetime (the layout is the components interleaved with the given separators), C05_date_uses_layout, C05_unique_string, C05_prefix_suffix. Tie: stream lang (60k cases quick): each of 20 rules on members of its language, 1-3 single-rune edits and random strings, custom / doubled / layout-significant separators, quoted options, through Var/Struct/Map/Url; the implementation's verdict is judged against the independent recognisers of Spec.Lang (phone, email, idcard, int, float, year, year2month, date, datetime, in, include, ints, unique, prefix, suffix), its text against the model.",
+        "note": "Trusted: Lean kernel; Spec.Lang as the reading of the documentation; regexp semantics of the stdlib; the hand transcription of time.Parse / Format (validated through the implementation by the lang stream; time.Date + Format of in-range fields assumed to render those fields). Genuine defect found by this check and repaired (F-C05-f).",
     },
     "C08": {
         "technique": "Lean 4 theorems (coherence invariant by induction over call histories, for every sound cache; soundness of LRU / map / always-miss) + differential correspondence, one process per cache configuration",
